@@ -30,6 +30,7 @@ OUTSIDE = ["n > 4 (quick) / n > 5 (thorough)", "sizes above D", "disconnected in
 
 OBJECTIVES = ["flops", "size", "write", "max", "combo", "combo-2", "limit", "limit-2"]
 # an unrelated request answered by the same process just before (parsers / registries / lru caches are process-wide)
+PREVIOUS_QUICK = [None, "combo-2", "limit-16", "combo", "size"]
 PREVIOUS = [None, "combo-2", "limit-2", "combo-256", "limit-16", "combo", "limit", "flops", "size"]
 
 
@@ -93,7 +94,7 @@ def items(tier, seed):
                 obj = OBJECTIVES[(si * 3 + li) % len(OBJECTIVES)]
                 for outer in (False, True):
                     its.append({"inputs": list(s[0]), "output": s[1], "obj": obj, "outer": outer, "D": 16, "mode": "one", "label": lab, "pattern": (li + si) % 2, "tier": tier})
-        for si, s in enumerate(sk4[:3]):
+        for si, s in enumerate(sk4[:2]):
             labels = skel.all_labels(s[0])
             for oi, obj in enumerate(("combo", "limit", "combo-2", "limit-2")):
                 its.append({"inputs": list(s[0]), "output": s[1], "obj": obj, "outer": bool((si + oi) % 2), "D": 16, "mode": "one", "label": labels[(si + oi) % len(labels)], "pattern": oi % 2, "tier": tier, "previous": True})
@@ -173,7 +174,8 @@ def run_item(item, rec):
     def harness(ctx):
         prev = None
         if item.get("previous"):
-            prev = PREVIOUS[symx.choose("previous_request", len(PREVIOUS))]
+            prevs = PREVIOUS if item["tier"] == "thorough" else PREVIOUS_QUICK
+            prev = prevs[symx.choose("previous_request", len(prevs))]
             if prev is not None:
                 optimize_optimal(("ab", "bc", "ca"), "", {"a": 2, "b": 3, "c": 4}, minimize=prev)
         if item["mode"] == "all":
@@ -181,7 +183,13 @@ def run_item(item, rec):
         else:
             size = {c: (symx.sym_int("d_" + c, 1, D) if c == item["label"] else (2 + (k + item["pattern"]) % 2)) for k, c in enumerate(labels)}
         cap = symx.sym_int("cap", 1, 64)
-        ssa = optimize_optimal(inputs, output, size, minimize=obj, cost_cap=cap, search_outer=outer, use_ssa=True)
+
+        def viol0(m):
+            sz = {c: int(symx.eval_model(m, size[c])) for c in labels}
+            return dict(case=case, size=sz, cap=symx.eval_model(m, cap), previous=prev, signature=["C09", list(inputs), output, obj, outer, prev])
+
+        with rec.guarded(ctx, f"optimal[{obj}] returns a path", viol0):
+            ssa = optimize_optimal(inputs, output, size, minimize=obj, cost_cap=cap, search_outer=outer, use_ssa=True)
         ssa = [tuple(int(x) for x in p) for p in ssa]
         ok = skel_valid(ssa, n)
         if not ok:
